@@ -125,6 +125,7 @@ _OB_ALL.update({
     "depth/3": "a defined depth-3 tree",
 })
 OBLIGATIONS = {"all": dict(_OB_ALL, **{"depth/4": "a defined depth-3 bracketing carrying one more unary operator",
+                                       "long_track": "a function evaluated on a track of 13, 17 or 40 observations",
                                        "rot/nan-first": "an order-free aggregate over values whose first one is NaN, compared with its rotations"}),
                "quick": {}, "thorough": {}}
 
@@ -1093,6 +1094,56 @@ def check_rotation(variant, fn, vec, ctx):
     ctx.outcome(("rot", fn, n, has_nan, repr(ref)))
 
 
+# ---------------------------------------------------------------------------
+# the same functions on tracks that are not tiny (a fast path taken only from some length on must agree with the
+# definition too): every function of UN_ALL on 13, 17 and 40 observations, two value patterns (one holding NaN)
+# ---------------------------------------------------------------------------
+LONG_SIZES = [13, 17, 40]
+LONG_PATTERNS = {"plain": [1.0, -2.0, 0.5, 4.0, 3.0], "with-nan": [2.0, NAN, 1.0, -3.0, NAN, 0.5, 4.0]}
+
+
+def long_vector(variant, pattern, n):
+    base = LONG_PATTERNS[pattern]
+    return [(base[i % len(base)] if base[i % len(base)] != base[i % len(base)]
+             else alpha.const(variant, base[i % len(base)] + (i // len(base)))) for i in range(n)]
+
+
+def check_long(variant, fn, pattern, n, ctx):
+    case = {"kind": "long", "variant": variant, "fn": fn, "pattern": pattern, "N": n}
+    vec = long_vector(variant, pattern, n)
+    try:
+        exp = _un(fn, vec)
+    except Undefined:
+        ctx.undef()
+        ctx.case(False)
+        return
+    ctx.case(True)
+    ctx.oblige("long_track")
+    text = ("-a" if fn == "neg" else "%s{a}" % fn)
+    for path in ("expr", "object"):
+        t = _rot_track(variant, vec)
+        if path == "expr":
+            st, got = guard(t.operate, text)
+            vals = _vec(got, n) if st == "ok" else None
+        else:
+            opn = OBJ_UN[fn]
+            if fn in UN_AGG:
+                st, got = guard(t.operate, getattr(Operator, opn), "a")
+                v = _num(got) if st == "ok" else None
+                vals = None if v is None else [v] * n
+            else:
+                st, got = guard(t.operate, getattr(Operator, opn), "a", "out")
+                vals = _vec(t.getAnalyticalFeature("out"), n) if st == "ok" else None
+        if st != "ok":
+            ctx.violation("long/%s/%s" % (fn, "does-not-return" if st == "hang" else "raises"), dict(case, path=path), got)
+            return
+        if vals is None or not vclose(vals, exp):
+            ctx.violation("long/%s/%s/values-differ" % (fn, pattern), dict(case, path=path),
+                          {"expected": exp[:6], "got": (vals or [repr(got)[:80]])[:6], "size": n})
+            return
+    ctx.outcome(("long", fn, pattern, n))
+
+
 def defined_size(bench, variant, tree):
     for n in reversed(SIZES):
         try:
@@ -1106,6 +1157,8 @@ def defined_size(bench, variant, tree):
 def replay(case, ctx):
     if case.get("kind") == "rot":
         return check_rotation(case["variant"], case["fn"], case["vec"], ctx)
+    if case.get("kind") == "long":
+        return check_long(case["variant"], case["fn"], case["pattern"], case["N"], ctx)
     if case["kind"] == "setup":
         st, err = guard(Bench().get, case["variant"], case["N"])
         if st != "ok":
@@ -1220,6 +1273,7 @@ def _quick_shards(variant, with_d2=True):
         sh.append({"kind": "direct", "variant": variant, "N": n})
     for fn in ROT_AGG:
         sh.append({"kind": "rot", "variant": variant, "N": 4, "fn": fn})
+    sh.append({"kind": "long", "variant": variant, "N": 4})
     if with_d2:
         sh += _d2_shards("quick", variant)
     for k in range(4):
@@ -1280,6 +1334,13 @@ def run_shard(shard, ctx):
     st, err = guard(bench.get, v, n)
     if st != "ok":
         ctx.violation("setup/cannot-build-the-track", {"kind": "setup", "variant": v, "N": n}, err)
+        return
+    if kind_ == "long":
+        for fn in UN_ALL:
+            for pattern in sorted(LONG_PATTERNS):
+                for size in LONG_SIZES:
+                    check_long(v, fn, pattern, size, ctx)
+        ctx.sample({"functions": UN_ALL, "sizes": LONG_SIZES, "patterns": {k: [repr(x) for x in p_] for k, p_ in LONG_PATTERNS.items()}})
         return
     if kind_ == "rot":
         vals = rot_values(v)
